@@ -53,7 +53,9 @@ def budget(tier):
 def pconf(draw):
     return {"use_color": draw(st.booleans()), "color_words": draw(st.booleans()),
             "renderer": draw(st.sampled_from(["git", "git", "diff", "difflib"])),
-            "flags": list(draw(st.sampled_from(ALL_SUBSETS))), "rot": draw(st.integers(0, 63))}
+            "flags": list(draw(st.sampled_from(ALL_SUBSETS))), "rot": draw(st.integers(0, 63)),
+            # the user's own git configuration asks git to colour always (color.ui / color.diff = always)
+            "git_color_always": draw(st.sampled_from([False, False, False, True]))}
 
 
 def strategy(tier):
@@ -129,6 +131,28 @@ def has_multiline_string_patch(d):
 
 
 def run_case(case):
+    import os
+    conf = case["conf"]
+    if not conf.get("git_color_always"):
+        return _run_case(case)
+    from .c01 import _workdir
+    cfgfile = os.path.join(_workdir(), "gitconfig_color_always")
+    with open(cfgfile, "w") as f:
+        f.write("[color]\n\tui = always\n\tdiff = always\n")
+    saved = os.environ.get("GIT_CONFIG_GLOBAL")
+    os.environ["GIT_CONFIG_GLOBAL"] = cfgfile
+    try:
+        out = _run_case(case)
+        out.label("git_config_color_always")
+        return out
+    finally:
+        if saved is None:
+            os.environ.pop("GIT_CONFIG_GLOBAL", None)
+        else:
+            os.environ["GIT_CONFIG_GLOBAL"] = saved
+
+
+def _run_case(case):
     import nbdime
     import nbdime.prettyprint as pp
     out = Outcome()
